@@ -187,7 +187,8 @@ def _below_broken_dir(T, key, git):
 
 def _apply_bzr(ctx, S, T, changes, pk, fail, unfiltered, include_unchanged):
     """Apply an id-keyed change list to S.  Returns S' (id -> (parent, name)) or None after a failure."""
-    S2 = {i: (e["parent"], e["name"]) for i, e in S.items()}
+    S2 = _Places((i, (e["parent"], e["name"])) for i, e in S.items())
+    K2 = {i: e["kind"] for i, e in S.items()}  # kinds after applying (kept beside S2 so the place comparison stays simple)
     seen = set()
     ok = True
     for c in changes:
@@ -213,8 +214,10 @@ def _apply_bzr(ctx, S, T, changes, pk, fail, unfiltered, include_unchanged):
             elif not _below_broken_dir(T, fid, False) and (kind[1] != t["kind"] or ex[1] != _x(t["kind"], t["exec"])):
                 ok = fail("entry-wrong:new-kind-exec", "new kind/exec %r/%r but the target tree has %r/%r" % (kind[1], ex[1], t["kind"], t["exec"]), c)
             S2[fid] = (par[1], name[1])
+            K2[fid] = kind[1]
         else:
             S2.pop(fid, None)
+            K2.pop(fid, None)
         if s is not None and t is not None and not _below_broken_dir(T, fid, False):
             differs = s["kind"] != t["kind"] or s["content"] != t["content"]
             if t["kind"] is not None or s["kind"] is None:
@@ -223,7 +226,13 @@ def _apply_bzr(ctx, S, T, changes, pk, fail, unfiltered, include_unchanged):
             if not include_unchanged and not differs and (s["parent"], s["name"]) == (t["parent"], t["name"]) and _x(s["kind"], s["exec"]) == _x(t["kind"], t["exec"]) \
                     and unfiltered:
                 ok = fail("spurious-entry", "entry reported without include_unchanged although nothing differs", c)
+    S2.kinds = K2
     return S2 if ok else None
+
+
+class _Places(dict):
+    """id -> (parent, name) with the kinds after applying attached."""
+    kinds = None
 
 
 def _judge_bzr(ctx, S, T, res, pk, spec, flags, fail):
@@ -263,6 +272,19 @@ def _judge_bzr(ctx, S, T, res, pk, spec, flags, fail):
             fail("closure:parent-missing", "after applying the filtered changes %r has parent %r which is not in the tree" % (name, par), {"id": _j(i)})
             return
         places.setdefault((par, name), []).append(i)
+    # nothing may end up below something that is not a directory (judged when both trees themselves are sound in
+    # that respect: a working tree whose versioned directory is a file on disk is not)
+    def kind_sound(V):
+        return all(e["parent"] is None or (V.get(e["parent"]) or {}).get("kind") == "directory" for e in V.values())
+    if kind_sound(S) and kind_sound(T):
+        ctx.count("closure_parent_kind")
+        for i, (par, name) in S2.items():
+            if par is not None and S2.kinds.get(par) != "directory":
+                reported = "reported as %r" % (S2.kinds.get(par),) if any(c[0] == par for c in changes) else "not reported"
+                fail("closure:parent-not-a-directory", "after applying the filtered changes %r sits below %r which is a %s (%s); %r itself is %s" % (
+                    name, (S.get(par) or T.get(par) or {}).get("path"), S2.kinds.get(par), reported, name,
+                    "reported" if any(c[0] == i for c in changes) else "not reported"), {"id": _j(i)})
+                return
     if any(len(v) > 1 for v in places.values()):
         # a reported entry lands where an unreported source entry still sits: the statement only speaks of parents, so this is counted, not judged
         ctx.hist("noncore:place-taken-twice")
@@ -567,8 +589,55 @@ def _swap(rng, wt, w):
     return None
 
 
-def _delta(ctx, rng, wt, names, nops, weights, log):
+def _dir_becomes_file_path_reused(ctx, rng, wt, w, counter, log):
+    """A versioned directory x is renamed to y and turned into a FILE (keeping its id), a NEW directory takes the
+    vacated path x, the old children are moved into it or removed, and a new file appears below the new directory."""
+    import shutil
+
+    dirs = sorted(w.path(i) for i, e in w.ents.items() if i != model.ROOT and e.kind == "directory" and not e.missing and not e.kc
+                  and not gen._under_missing(w, i) and w.children(i))
+    if not dirs:
+        return False
+    x = rng.choice(dirs)
+    xi = w.id_at(x)
+    parent = os.path.dirname(x)
+    y = (parent + "/" if parent else "") + "was-dir"
+    newf = "g.new"
+    if not w.free(y) or any(w.ents[c].name == newf for c in w.children(xi)) or any(w.ents[c].missing or w.ents[c].kc for c in w.descendants(xi)):
+        return False
+    base = wt.basedir
+    kids = sorted(w.ents[c].name for c in w.children(xi))
+    with wt.lock_tree_write():
+        wt.rename_one(x, y)
+        os.mkdir(os.path.join(base, x))
+        counter[0] += 1
+        wt.add([x], ids=[b"a%d-newdir" % counter[0]])
+        for k in kids:
+            if rng.random() < 0.6:
+                wt.rename_one(y + "/" + k, x + "/" + k)
+            else:
+                wt.remove([y + "/" + k], keep_files=False, force=True)
+        with open(os.path.join(base, x, newf), "w") as f:
+            f.write("new below the new directory %d\n" % counter[0])
+        counter[0] += 1
+        wt.add([x + "/" + newf], ids=[b"a%d-gnew" % counter[0]])
+    shutil.rmtree(os.path.join(base, y))
+    with open(os.path.join(base, y), "w") as f:
+        f.write("was a directory\n")
+    ctx.hist("shape:dir-to-file+rename+path-reuse")
+    log.append({"op": "dir-becomes-file-path-reused", "dir": x, "now-file-at": y, "new-file": x + "/" + newf})
+    return True
+
+
+def _delta(ctx, rng, wt, names, nops, weights, log, counter=None):
     w = gen.random_delta(rng, wt, names, nops, weights, log)
+    if counter is not None and rng.random() < 0.4:
+        try:
+            if _dir_becomes_file_path_reused(ctx, rng, wt, w, counter, log):
+                return gen.world_from_tree(wt)
+        except Exception as e:
+            log.append({"dir-becomes-file-refused": type(e).__name__})
+            return gen.world_from_tree(wt)
     if rng.random() < 0.3:
         # retarget a versioned symlink (the shared generator never changes a link's target)
         links = sorted(w.path(i) for i, e in w.ents.items() if i != model.ROOT and e.kind == "symlink" and not e.missing and not gen._under_missing(w, i))
@@ -639,7 +708,7 @@ def _build(ctx, rng, git):
     counter = [0]
     nrev = rng.randint(2, 3) if ctx.tier == "quick" else rng.randint(2, 4)
     for n in range(nrev):
-        _delta(ctx, rng, wt, names, rng.randint(4, 10) if n == 0 else rng.randint(2, 7), W_COMMIT, log)
+        _delta(ctx, rng, wt, names, rng.randint(4, 10) if n == 0 else rng.randint(2, 7), W_COMMIT, log, None if (git or n == 0) else counter)
         if n == 0 or rng.random() < 0.4:
             _add_all(wt, git, counter, log)
         try:
@@ -660,7 +729,7 @@ def _build(ctx, rng, git):
             wt.branch.controldir.sprout(p2, revision_id=base)
             wt2 = WorkingTree.open(p2)
             log.append({"op": "sprout", "at": base.decode()})
-            _delta(ctx, rng, wt2, names, rng.randint(2, 6), W_COMMIT, log)
+            _delta(ctx, rng, wt2, names, rng.randint(2, 6), W_COMMIT, log, counter)
             if rng.random() < 0.5:
                 _add_all(wt2, git, counter, log)
             merged = _commit(wt2, git, "m0", 50)
@@ -726,6 +795,13 @@ def _pair(ctx, rng, pk, src, tgt, tgt_is_wt, git, disk, revpair, log):
     for spec in _filters(rng, universe, nfil):
         for f in _flag_sets(rng, 2 if ctx.tier == "quick" else 3, tgt_is_wt):
             combos.append((spec, f))
+    # targeted filters: a single file that is new in the target (its parents then have to come from the closure
+    # rules alone), preferring files whose directory is new as well
+    newfiles = sorted((0 if e["parent"] not in S else 1, e["path"]) for k, e in T.items() if k not in S and e["kind"] in ("file", "symlink"))
+    for _rank, q in newfiles[:3 if ctx.tier == "quick" else 6]:
+        ctx.count("targeted_new_file_filter")
+        for f in _flag_sets(rng, 2, tgt_is_wt):
+            combos.append(([q], f))
     full_shape = None
     full_cache = {}
     for spec, flags in combos:
